@@ -86,6 +86,10 @@ type Conn struct {
 
 	// WAL state (pager_wal.go)
 	wal *walConn
+
+	// OnCommitPoint, if set, is called at the instant COMMIT returns success
+	// to SQLite's caller (journal finalised / WAL write lock released).
+	OnCommitPoint func()
 }
 
 // NewConn creates a connection object; Open must be called before use.
@@ -412,6 +416,16 @@ func (c *Conn) syncJournal(j *jstate, nosync bool) (string, syscall.Errno) {
 		j.synced = true
 		return "", 0
 	}
+	// pager.c syncJournal(): if a journal header left over from an earlier
+	// (persistent-journal) transaction follows the records written so far,
+	// clobber its first byte so that it can never be mistaken for ours.
+	next := c.sectorAlign(j.off)
+	if b, e := c.jf.Pread(next, 8); e == 0 && len(b) == 8 && string(b) == string(journalMagic) {
+		if e := c.jf.Pwrite(next, []byte{0}); e != 0 {
+			return "journal-clobber-stale-header", e
+		}
+		c.r.Count("pager.stale-header-clobbered")
+	}
 	if e := c.jf.Fsync(); e != 0 {
 		return "journal-fsync", e
 	}
@@ -473,7 +487,7 @@ func (c *Conn) WriteTx(prog TxProgram, ref *Image) (res TxResult) {
 	if e := c.openJournal(); e != 0 {
 		return fail("journal-open", e)
 	}
-	j := &jstate{nonce: uint32(c.r.Tape.Next(1 << 30)), origSize: origSize}
+	j := &jstate{nonce: 1 + uint32(c.r.Tape.Next(1<<30)), origSize: origSize}
 	if e := c.jf.Pwrite(0, c.journalHeader(j, prog.NoSync)); e != 0 {
 		return fail("journal-header", e)
 	}
@@ -581,13 +595,17 @@ func (c *Conn) WriteTx(prog TxProgram, ref *Image) (res TxResult) {
 				}
 				written[dp] = true
 			}
-			// start a new journal segment at the next sector boundary
-			j.hdrOff = c.sectorAlign(j.off)
-			j.nRec = 0
-			if e := c.jf.Pwrite(j.hdrOff, c.journalHeader(j, prog.NoSync)); e != 0 {
-				return fail("journal-header2", e)
+			// start a new journal segment at the next sector boundary. In
+			// no-sync mode (synchronous=OFF) syncJournal() does nothing: the
+			// journal stays a single segment with count -1 (strace-verified).
+			if !prog.NoSync {
+				j.hdrOff = c.sectorAlign(j.off)
+				j.nRec = 0
+				if e := c.jf.Pwrite(j.hdrOff, c.journalHeader(j, prog.NoSync)); e != 0 {
+					return fail("journal-header2", e)
+				}
+				j.off = j.hdrOff + int64(c.SectorSize)
 			}
-			j.off = j.hdrOff + int64(c.SectorSize)
 		}
 	}
 	if prog.Outcome == OutRollback {
@@ -635,6 +653,9 @@ func (c *Conn) WriteTx(prog TxProgram, ref *Image) (res TxResult) {
 	// COMMIT phase two: finalise the journal. This is the commit point.
 	if at, e := c.finalizeJournal(); e != 0 {
 		return fail(at, e)
+	}
+	if c.OnCommitPoint != nil {
+		c.OnCommitPoint()
 	}
 	// Only now is the file cut if the database shrank.
 	if prog.NewSize < origSize {
